@@ -65,7 +65,10 @@ extern "C" void harness(void)
   for (unsigned i = 0; i < NQ; ++i) for (unsigned j = 0; j < NQ; ++j) for (unsigned k = 0; k < NQ; ++k) vs_assume(!(R[i][j] & R[j][k]) | R[i][k]);   // transitive
 #endif
   // number of states: the constructor argument, raised by the edges
-  unsigned ns = T.usedStates(); ns = ns < CT ? CT : ns;
+  unsigned ns = T.usedStates();
+#ifndef REUSED
+  ns = ns < CT ? CT : ns;
+#endif
   if (FILL) ns = NQ + FILL;
   vs_assume(ns >= 1);            // the engine requires a non-empty state set (documented by its assertions)
   vs_assume(out <= ns);
@@ -80,6 +83,10 @@ extern "C" void harness(void)
   enum { COFF = FILL, FOFF = 0 };
 #else
   enum { COFF = 0, FOFF = NQ };
+#endif
+#ifdef REUSED   // the object held another system before (more labels, more states, other edges) and was cleared: clear() leaves no trace
+  // (the number of states then comes from the edges alone)
+  lts.addTransition(0, NL + 1, 1); lts.addTransition(1, 0, 0); lts.addTransition(NQ + 1, NL, 0); lts.addTransition(NQ, 0, NQ + 1); lts.init(); lts.clear();
 #endif
   T.build(lts, COFF);
 #ifdef FILLBOTH    // the filler states carry self loops on labels 0 AND 1: the counters of both labels span several rows, with overlapping row ranges
